@@ -34,6 +34,12 @@ def inputs_for(bpt, tier):
             out.append((sc,))
     for sc in pv.gen_scaffolds("fasta", "scaffold_1", 3, lens3, SEPS[1:]):
         out.append((sc,))
+    # contigs that are sub-ranges of one named sequence, every strand combination
+    for sc in pv.gen_scaffolds("sub", "scaffold_1", 2, lens2, SEPS):
+        out.append((sc,))
+    for sc in pv.gen_scaffolds("sub", "scaffold_1", 3, [1, 2 * e + 1], SEPS[:1]):
+        if sum(1 for r in sc[1] if r[0] == "F") == 3:
+            out.append((sc,))
     firsts = list(pv.gen_scaffolds("tpf", "scaffold_1", 2, [1, 2 * e + 1], SEPS[:1]))
     seconds = list(pv.gen_scaffolds("tpf", "scaffold_2", 2, [1, e], SEPS[:1]))
     for a in firsts:
